@@ -65,7 +65,14 @@ pub fn reader_fault(input: &[u8], from: Option<Fmt>, to: Fmt, k: usize, sched: &
     let problem = match &v {
         Verdict::Ok => Some("returned Ok although the reader failed".to_string()),
         Verdict::Panic(p) => Some(format!("panicked: {p}")),
-        Verdict::Err(e) if !e.contains(mark.as_str()) => Some(format!("error text lost the reader's error [{mark}]: Err({e})")),
+        Verdict::Err(e) if !e.contains(mark.as_str()) => {
+            // recorded finding: beyond 2 MiB of a first YAML document detection gives up without reading on
+            if from.is_none() && k >= 2 << 20 && e == "unable to detect input format" && (match xt::verif::detect_slice(input).ok().flatten().map(Fmt::from_xt) { Some(Fmt::Yaml) => true, Some(Fmt::Msgpack) => kind == std::io::ErrorKind::UnexpectedEof, _ => false }) && crate::known::listed("C12", "C12-detection-loses-reader-error-beyond-2-mib") {
+                acc.known("C12-detection-loses-reader-error-beyond-2-mib", || format!("input [{}] ({} bytes), reader failing after {k} bytes: Err({e})", preview(input, 40), input.len()));
+                return;
+            }
+            Some(format!("error text lost the reader's error [{mark}]: Err({e})"))
+        }
         Verdict::Err(_) if !prefix_ok => Some(format!("bytes written are not a prefix of the fault-free output: [{}] vs [{}]", preview(&out, 160), preview(clean, 160))),
         Verdict::Err(e) => {
             acc.count(&format!("reader_fault_error_{}", classify_err(e)));
@@ -295,12 +302,32 @@ pub fn run(ctx: &Ctx) -> i32 {
         }
     });
     acc.merge(ex);
+    // first documents larger than the 2 MiB that detection is willing to buffer for the TOML trial, the reader
+    // failing beyond that point: the reader's error must still be what is reported
+    let big_first: Vec<(Fmt, Vec<u8>)> = vec![
+        (Fmt::Yaml, format!("k: \"{}\"\nn: 1\n", "0123456789 ".repeat(210_000)).into_bytes()),
+        (Fmt::Yaml, format!("- [{}z]\n- 2\n", "abcdefgh, ".repeat(230_000)).into_bytes()),
+        (Fmt::Json, format!("{{\"k\": \"{}\"}}\n{{\"n\": 1}}\n", "0123456789 ".repeat(210_000)).into_bytes()),
+        (Fmt::Msgpack, { let mut b = vec![0x81, 0xa1, b'k', 0xdb, 0x00, 0x24, 0x00, 0x00]; b.extend(std::iter::repeat(b'x').take(0x240000)); b.push(0x01); b }),
+    ];
+    let bf = crate::par::run(big_first.len() * 4, 1, |i, acc| {
+        let (f, input) = &big_first[i / 4];
+        let from = if i % 2 == 0 { None } else { Some(*f) };
+        let k = input.len() - [1usize, 5000, 100_000, 150_000][(i / 2) % 2 * 2 + i % 2];
+        let clean = run_slice(input, from, Fmt::Json);
+        if !clean.verdict.is_ok() {
+            return;
+        }
+        acc.count("first_documents_above_2_mib");
+        reader_fault(input, from, Fmt::Json, k, &Sched::Fixed(65536), &clean.out, acc);
+    });
+    acc.merge(bf);
     let n_second = ctx.size(3000, 100000);
     let second = crate::par::run(n_second, 16, |i, acc| toml_second_call_after_fault(seed, i, acc));
     acc.merge(second);
-    let rule = format!("{} generated valid inputs (1-3 documents, each format in turn, every third YAML input re-encoded as UTF-16/32 with characters outside the BMP, <= 2 KiB plus a stratified sample above) x [explicit, detected] x rotating target, restricted to combinations whose fault-free run succeeds; for each: the reader fails and keeps failing after k bytes for EVERY k in 0..=len under rotating schedules [all, one, random], error kinds and error representations (custom payload, raw OS error, bare kind); the writer fails after accepting k bytes for EVERY k below the fault-free length in three styles (short accept then fail / reject the crossing write / accept nothing more: Ok(0)), from slice and reader input; 4 short-write patterns; {} heavy documents (thousands of entries, 64 KiB strings) to every target incl. TOML under 6 short-write patterns (at most 1000 .. 1 MiB bytes accepted per call) and 12 sampled writer faults; outputs of exactly 8 KiB / 64 KiB / 128 KiB / 1 MiB (and one byte less or more) to every target, whole and in pieces; pairs of calls on one TOML translator whose first call meets one failing write (hard or transient kind): the second call may not append; flush faults; distinct non-trivial = distinct (input, from, to) combinations", n, n_big);
+    let rule = format!("{} generated valid inputs (1-3 documents, each format in turn, every third YAML input re-encoded as UTF-16/32 with characters outside the BMP, <= 2 KiB plus a stratified sample above) x [explicit, detected] x rotating target, restricted to combinations whose fault-free run succeeds; for each: the reader fails and keeps failing after k bytes for EVERY k in 0..=len under rotating schedules [all, one, random], error kinds and error representations (custom payload, raw OS error, bare kind); the writer fails after accepting k bytes for EVERY k below the fault-free length in three styles (short accept then fail / reject the crossing write / accept nothing more: Ok(0)), from slice and reader input; 4 short-write patterns; {} heavy documents (thousands of entries, 64 KiB strings) to every target incl. TOML under 6 short-write patterns (at most 1000 .. 1 MiB bytes accepted per call) and 12 sampled writer faults; outputs of exactly 8 KiB / 64 KiB / 128 KiB / 1 MiB (and one byte less or more) to every target, whole and in pieces; first documents of 2.2-2.5 MB (YAML, JSON, MessagePack; named and detected) with the reader failing near the end, beyond the 2 MiB detection is willing to buffer; pairs of calls on one TOML translator whose first call meets one failing write (hard or transient kind): the second call may not append; flush faults; distinct non-trivial = distinct (input, from, to) combinations", n, n_big);
     ev::finish(
-        Finish { ctx, level: "fault_enumeration", rule, assumptions: vec!["for YAML output one trailing '---' header after the last complete document is allowed (the writer emits it before pulling the next document)".into(), "writer-fault error text is judged in C11, not here".into()], extra: serde_json::Map::new(), exhaustive: false, min_distinct: 200, must_reach: vec![("reader_faults_delivered".into(), 10000), ("writer_fault_points".into(), 10000), ("short_write_runs".into(), 500), ("flush_fault_runs".into(), 4), ("inputs_utf16_32_with_astral_characters".into(), 20), ("writer_fault_style_ZeroLen".into(), 2000), ("large_output_cases".into(), 12), ("toml_second_call_after_a_faulted_first_call".into(), 1000), ("outputs_of_an_exact_length".into(), 30)] },
+        Finish { ctx, level: "fault_enumeration", rule, assumptions: vec!["for YAML output one trailing '---' header after the last complete document is allowed (the writer emits it before pulling the next document)".into(), "writer-fault error text is judged in C11, not here".into()], extra: serde_json::Map::new(), exhaustive: false, min_distinct: 200, must_reach: vec![("reader_faults_delivered".into(), 10000), ("writer_fault_points".into(), 10000), ("short_write_runs".into(), 500), ("flush_fault_runs".into(), 4), ("inputs_utf16_32_with_astral_characters".into(), 20), ("writer_fault_style_ZeroLen".into(), 2000), ("large_output_cases".into(), 12), ("toml_second_call_after_a_faulted_first_call".into(), 1000), ("outputs_of_an_exact_length".into(), 30), ("first_documents_above_2_mib".into(), 12)] },
         acc,
     )
 }
